@@ -194,6 +194,10 @@ def compare_code(c, i, ref, x, co_code_hex=None):
                     c.fail("decode", "get_instructions-of-other-Bytecode", "%s at %d: Bytecode(B) gives %s %s, Bytecode(A).get_instructions(B) gives %s %s" % (
                         tag, a["o"], a["n"], a["a"], b["n"], b["a"]))
                     break
+                if a["l"] != b["l"]:
+                    c.fail("lines", "get_instructions-of-other-Bytecode", "%s at %d %s: Bytecode(B) starts line %s there, Bytecode(A).get_instructions(B) %s" % (
+                        tag, a["o"], a["n"], a["l"], b["l"]))
+                    break
                 if a["v"] != b["v"]:
                     c.fail("argval", "get_instructions-of-other-Bytecode|%s" % a["k"], "%s at %d %s %s: Bytecode(B) resolves %s, Bytecode(A).get_instructions(B) %s" % (
                         tag, a["o"], a["n"], a["a"], cn.summary(a["v"]), cn.summary(b["v"])))
